@@ -1,6 +1,6 @@
 (* Proto.v — M-Sys: the message / spawn / await protocol between the Executor's scheduling state,
    the Worker and the Environment (quiver-core/src/executor.rs, quiver-environment/src/worker.rs,
-   environment.rs), as the code is (the stale wake-up F71 and the discarded result F72 included).
+   environment.rs), as the code is (the overtaken snapshot F72 included).
 
    What is abstracted: the BEHAVIOUR of a process. One `Executor::step` runs one time slice of the
    process at the head of the run queue; what that slice did is an input of the step (`did`): the
@@ -208,21 +208,31 @@ Definition mark_spawning (p : pid) (w : worker) : worker :=
   set_sched w (sremove p (w_queue w)) (sadd p (w_spawning w)) (w_selecting w).
 Definition mark_selecting (p : pid) (w : worker) : worker :=
   set_sched w (sremove p (w_queue w)) (w_spawning w) (sadd p (w_selecting w)).
-(* mark_active, executor.rs:871: wakes a process parked in `spawning` as well (finding F71) *)
+(* mark_active, executor.rs:871 (no longer used by the worker since the repair of F71: it also
+   wakes a process parked in `spawning`) *)
 Definition mark_active (p : pid) (w : worker) : worker :=
   if mem p (w_spawning w) || mem p (w_selecting w)
   then set_sched w (w_queue w ++ [p]) (sremove p (w_spawning w)) (sremove p (w_selecting w))
   else w.
 
-(* Executor::notify_result with a value that carries no heap data, executor.rs:753 *)
+(* does `awaiter` (still) await `awaited`: process.awaiting.contains_key *)
+Definition awaits (awaiter awaited : pid) (w : worker) : bool :=
+  match alookup awaiter (w_procs w) with
+  | Some pr => match alookup awaited (p_awaiting pr) with Some _ => true | None => false end
+  | None => false
+  end.
+(* Executor::notify_result with a value that carries no heap data, executor.rs:774: a result for a
+   target that is no longer awaited (its select has completed) is not stored, the awaiter is only woken *)
 Definition notify_result (awaiter awaited : pid) (r : res) (w : worker) : worker :=
-  let w1 := upd_proc awaiter (fun pr => with_awaiting (aset awaited (Some r) (p_awaiting pr)) pr) w in
-  wake_selecting awaiter w1.
-(* Worker::notify_result, worker.rs:563: an error completes the awaiter in place (no re-queue) *)
+  if awaits awaiter awaited w
+  then wake_selecting awaiter (upd_proc awaiter (fun pr => with_awaiting (aset awaited (Some r) (p_awaiting pr)) pr) w)
+  else wake_selecting awaiter w.
+(* Worker::notify_result, worker.rs:566: an error completes an awaiter that still awaits the failed
+   process, in place (no re-queue); a stale failure only wakes it *)
 Definition worker_notify (awaiter awaited : pid) (r : res) (w : worker) : worker :=
   match r with
   | ROk _ => notify_result awaiter awaited r w
-  | RErr _ => upd_proc awaiter (with_res (Some r)) w
+  | RErr _ => if awaits awaiter awaited w then upd_proc awaiter (with_res (Some r)) w else wake_selecting awaiter w
   end.
 
 (* Executor::get_status restricted to what query_and_await asks: Completed | Sleeping *)
@@ -249,7 +259,7 @@ Definition query_one (awaiter : pid) (acc : worker * list (pid * option res)) (t
 Definition update_await (awaiter : pid) (results : list (pid * option res)) (w : worker) : worker :=
   let w1 := fold_left (fun w e => match snd e with Some r => worker_notify awaiter (fst e) r w | None => w end) results w in
   if existsb (fun e => match snd e with Some _ => true | None => false end) results then w1
-  else mark_active awaiter w1.
+  else wake_selecting awaiter w1.   (* worker.rs:556; before the repair of F71: mark_active *)
 
 (* Worker::handle_command *)
 Definition handle_cmd (c : cmd) (w : worker) : result (worker * list event) :=
@@ -321,6 +331,8 @@ Inductive act := ASpawn | ADeliver (t : pid) | AAwait (ts : list pid).
 Record did := {
   d_taken : list nat;            (* mailbox indices taken by completed selects, sequentially *)
   d_sel : option sel;            (* select_state at the end of the slice *)
+  d_forget : list pid;           (* process sources of the selects completed in this slice:
+                                    complete_select removes them from `awaiting` (executor.rs:2671) *)
   d_act : option act;            (* the Action returned by Executor::step *)
   d_park : bool;                 (* process_select_sources found no ready source: mark_selecting *)
   d_fin : option res;            (* frames empty at the end of the slice: the result *)
@@ -386,7 +398,8 @@ Definition run_slice (i : wid) (p : pid) (pr : proc) (d : did) (hint : list pid)
   match take_seq (d_taken d) (p_mail pr) with
   | None => Fault (BadOracle 4)
   | Some (taken, mail') =>
-    let pr1 := with_sel (d_sel d) (with_mail mail' (p_arrived pr) (p_taken pr ++ taken) pr) in
+    let pr0 := with_sel (d_sel d) (with_mail mail' (p_arrived pr) (p_taken pr ++ taken) pr) in
+    let pr1 := with_awaiting (fold_left (fun a t => aremove t a) (d_forget d) (p_awaiting pr0)) pr0 in
     let w1 := set_procs w (aset p pr1 (w_procs w)) in
     (* the action *)
     let '(w2, ev) :=
